@@ -17,11 +17,25 @@ def run(ck):
                'observed path. Non-trivial = accepted input whose alignment contains at least one gap; distinct by input+settings')
     res = wc.campaign(ck, cases)
     corr_bad, wit, prem_bad = [], [], []
+    # a run that fails is a violation only if the input is ACCEPTED: the property quantifies over accepted inputs, and kalign
+    # rejects a set whose detected alphabet contradicts the requested type (aln_param.c).  Whether it does is decided by the
+    # model of detect_alphabet and of aln_param_init (both tied to the code by C13/C09), not by the generator's intent.
+    failed = [(c, o) for c, o, d, v in res if not o.startswith('OK') and sum(1 for s in c['seqs'] if s) >= 2]
+    rejected = set()
+    if failed:
+        model = ck.model()
+        det = ck.run_lines(model, ['detect ' + ' '.join(gen.hexs(s) for s in c['seqs'] if s) for c, o in failed], timeout=600)
+        bts = [dict(t.split('=', 1) for t in r.split() if '=' in t).get('biotype') for r in det]
+        par = ck.run_lines(model, ['params %s %d %d %d %d' % (bt if bt in ('0', '1') else '0', c['type'], c['pens'][0], c['pens'][1], c['pens'][2])
+                                   for (c, o), bt in zip(failed, bts)], timeout=600)
+        for (c, o), bt, pr in zip(failed, bts, par):
+            if bt in ('0', '1') and pr.startswith('FAIL'):
+                rejected.add(id(c))
+                ck.count('rejected: detected alphabet contradicts requested type (model predicts the rejection)')
     for c, o, d, v in res:
         if not o.startswith('OK'):
-            # accepted input (>= 2 non-empty sequences) must not fail
-            if sum(1 for s in c['seqs'] if s) >= 2:
-                wit.append({'kind': 'run-failed-on-valid-input', 'case': c, 'implementation': o[:200]})
+            if sum(1 for s in c['seqs'] if s) >= 2 and id(c) not in rejected:
+                wit.append({'kind': 'run-failed-on-accepted-input', 'case': c, 'implementation': o[:200]})
             continue
         if '2d' in o.split('|')[0]:
             ck.nontriv({'s': c['seqs'], 't': c['type'], 'p': c['pens']})
